@@ -323,6 +323,14 @@ def run(env):
         res = env.drive(name, text)
         env.require_complete(res, name)
         env.pmap(monitor_all, res.sessions, workload="long")
+    if not env.quick():
+        # other optimisation levels and the host's full CPU feature set: a slice of the sender workload each
+        from props.c13 import slice_text
+        mtext = slice_text(generate(env, "impl", 1, 4), 0, 2)
+        for b in ("opt0", "opt1", "opts", "optz", "native"):
+            rb = env.drive("matrix", mtext, build=b)
+            env.require_complete(rb, "matrix/" + b)
+            env.pmap(monitor, rb.sessions, workload="impl-sender")
     text = long_sessions(env, env.pick(300, 70000))
     res = env.drive("long", text)
     env.require_complete(res, "long")
